@@ -184,7 +184,7 @@ func c01FTM(vals []time.Duration) (lo, hi time.Duration) {
 }
 
 func c01World(t *testing.T, r *simcore.Run) any {
-	if r.Index%8 == 7 {
+	if r.Index%8 == 7 && Root.DefaultSyncConfig != nil && Root.NewNTPReferenceClockIP != nil {
 		return c01WiredWorld(r) // the real wiring of timeservice.go against real listeners
 	}
 	activate(r)
@@ -243,7 +243,7 @@ func c01World(t *testing.T, r *simcore.Run) any {
 	// In a third of the runs the settings take the way they take in production: as the numbers
 	// of the configuration file through timeservice.go's syncConfig (where an absent or zero
 	// setting means "default"; such settings are not sent this way here).
-	if tp.Bool(1, 3, "viawiring") && cfg.ReferenceClockImpact != 0 && cfg.PeerClockImpact != 0 && cfg.PeerClockCutoff != 0 &&
+	if Root.SyncConfigFrom != nil && tp.Bool(1, 3, "viawiring") && cfg.ReferenceClockImpact != 0 && cfg.PeerClockImpact != 0 && cfg.PeerClockCutoff != 0 &&
 		cfg.SyncTimeout != 0 && cfg.SyncInterval != 0 {
 		in := cfg
 		cfg = Root.SyncConfigFrom(in.ReferenceClockImpact, in.PeerClockImpact, in.PeerClockCutoff.Seconds(), in.SyncTimeout.Seconds(), in.SyncInterval.Seconds())
